@@ -135,7 +135,8 @@ struct WkdRun {
         case 4: if (!nonfixed.empty()) { L.push_back({(uint32_t) nonfixed[pick % nonfixed.size()], Bn(0), true}); sortL(); } break;
         case 6: L.clear(); break;
         case 8: if (!nonfixed.empty()) { Bn v = value_of_code(code); if (Bn::mod(v, K().r).is_zero()) v = Bn(5); L.push_back({(uint32_t) nonfixed[pick % nonfixed.size()], v, true}); sortL(); env.count("probe:list_entry_flagged_omit_with_nonzero_id"); } break;
-        case 7: { L.clear(); Rng r((uint64_t) mut); for (int i = 0; i < sys.l; i++) if (r.chance(1, 2)) L.push_back({(uint32_t) i, value_of_code(value_codes()[r.below(value_codes().size())]), false}); } break;
+        case 7: { L.clear(); Rng r((uint64_t) mut); bool same = r.chance(1, 3); Bn one = value_of_code(value_codes()[r.below(value_codes().size())]); if (same) env.count("probe:list_whose_entries_all_carry_the_same_id");   // (a third of these lists gives every named slot the identical id)
+                  for (int i = 0; i < sys.l; i++) if (r.chance(1, 2)) L.push_back({(uint32_t) i, same ? one : value_of_code(value_codes()[r.below(value_codes().size())]), false}); } break;
         default: break;
         }
         return L;
